@@ -3,6 +3,8 @@ permutation / batching / repetition relations, snapshot before == after,
 hosts whose inner module was changed behind their back after training (module trained on unlabelled rows or re-fitted,
 a shallow copy of the host / a second host around the same module re-fitted on more classes): a label is the map of
 the arg-max and a trained label, or the call is refused,
+label batches of mixed dtypes (int64 / uint64 / float-typed integral labels, class ids above 2^53 next to small ones:
+the stored label vector is promoted to float64 and cannot hold the ids): the label is still exactly the map of the arg-max,
 recomputed arg-max from the public activation function (also on rows a hair away from a decision boundary and on
 runs of consecutive floats across it: exact ties and one-ulp leads), range of outputs.  Tie:
 Lean `predict` (incl. the SimpleARTMAP map) end-to-end on exact kernels."""
@@ -177,6 +179,7 @@ def run(ctx):
     near_boundary(ctx)
     ulp_near_ties(ctx)
     behind_the_back(ctx)
+    mixed_label_dtypes(ctx)
     e2e.base_histories(ctx, "C08", ctx.scale(150, 3000), ctx.scale(20, 80), fields=("labels",))
     e2e.smap_histories(ctx, "C08", ctx.scale(100, 2000), ctx.scale(16, 60))
 
@@ -845,3 +848,197 @@ def behind_the_back(ctx):
                           f"activations {Ts[k]})", dict(rep, row=k))
                 break
         cov.case(("behind", name, way, fam.spec, desc["rows"], desc["more_rows"]), hit_unmapped)
+
+
+# ---------------------------------------------------------------------------------------------------------------
+# label batches of mixed dtypes, class ids that float64 cannot hold
+
+ML_BIG = [2 ** 53 + 1, 2 ** 53 + 3, 2 ** 53 + 1, 2 ** 53 + 3, 2 ** 53 + 2, 2 ** 53 + 5, 2 ** 60 + 1, 2 ** 62 + 12345678901,
+          -(2 ** 53 + 1)]
+ML_SMALL = [0, 1, 2, 3, 7, 100, 255]
+ML_DTYPES = ["int64", "int64", "float64", "float64", "uint64", "uint64", "float32", "int32", "uint8"]
+ML_WIDE = ("int64", "uint64")                 # dtypes that hold a class id above 2^53 exactly
+ML_HOSTS = ["SimpleARTMAP", "DeepARTMAP-1", "SimpleARTMAP", "DeepARTMAP-sup"]
+
+
+def _ml_fits(v, dt):
+    """class id v is exactly representable in dtype dt"""
+    if dt in ML_WIDE:
+        return -(2 ** 63) <= v < 2 ** 63 if dt == "int64" else 0 <= v < 2 ** 63
+    if dt == "uint8":
+        return 0 <= v <= 255
+    return abs(v) < 2 ** 24                   # float32 / float64 / int32: integral values this small are exact
+
+
+def _ml_label_state(layers):
+    """what predict may not touch of the label side: every layer's map (key, type and exact value of each entry) and
+    the stored label vector (dtype and bytes)"""
+    out = []
+    for L in layers:
+        out.append((sorted((int(a), type(b).__name__, int(b)) for a, b in L.map.items()),
+                    str(np.asarray(L.labels_).dtype), np.asarray(L.labels_).tobytes()))
+    return out
+
+
+def mixed_label_dtypes(ctx):
+    """A supervised host (SimpleARTMAP; DeepARTMAP trained with labels, one module = its only layer is the labelled
+    one, or several) is trained incrementally from several sources, and the sources type their class labels
+    differently: int64 in one batch (`fit` or `partial_fit`), uint64 or float-typed integral labels (float64 /
+    float32), or a narrow integer type, in another.  Class ids above 2^53 (hashed ids; adjacent odd ones such as
+    2^53+1, 2^53+3) sit next to small ones; every label is exactly representable in the dtype of ITS batch, so every
+    batch is a valid label batch on its own.  numpy promotes the concatenation of such batches (int64 + float64,
+    int64 + uint64) to float64, which cannot hold the big ids: the dtype / content of the stored label vector
+    `labels_` is then no guide to the labels.  The property does not care: for every query row (training rows of
+    every batch, fresh rows) `predict` / `predict_ab` return exactly map[oldest category of maximal activation]
+    (activation = the A-side module's public `category_choice`; compared as Python ints, through every layer's map
+    for DeepARTMAP), which is one of the labels the host was trained with; batch and row-by-row agree; maps and stored
+    labels are untouched.  ARTMAP and SMART (and DeepARTMAP without labels) take no class labels from the caller
+    - their B-side labels are category numbers of a module, always int - so this situation does not reach them."""
+    from ..impl import make
+    cov = ctx.cov
+    for i in range(ctx.scale(72, 1500)):
+        r = gen.rng_for(ctx.seed, "C08-mixed-labels", i)
+        host = ML_HOSTS[i % len(ML_HOSTS)]
+        n = r.randint(4, ctx.scale(14, 40))
+        if host == "DeepARTMAP-sup":
+            fam, rows = families.build(r, "DeepARTMAP-sup", n, floats=r.random() < 0.3)
+            spec, Xs = fam.spec, [np.asarray(t) for t in rows.arrs["Xs"]]
+            fresh = fam.fresh(r, r.randint(1, 4), floats2=r.random() < 0.3).arrs["Xs"] if fam.fresh is not None else None
+        else:
+            fam, rows = families.build(r, "SimpleARTMAP", n, floats=r.random() < 0.3)
+            Xs = [np.asarray(rows.arrs["X"])]
+            fresh = [fam.fresh(r, r.randint(1, 4), floats2=r.random() < 0.3).arrs["X"]] if fam.fresh is not None else None
+            spec = fam.spec if host == "SimpleARTMAP" else {"cls": "DeepARTMAP", "modules": [fam.spec["module_a"]]}
+        deep = spec["cls"] == "DeepARTMAP"
+        n = len(Xs[0])
+        kw = dict(match_tracking=fam.mode, epsilon=fam.eps)
+        # --- classes and batches
+        nbig = r.choice([0, 1, 2, 2, 2, 3])
+        classes = r.sample(sorted(set(ML_BIG)), nbig) + r.sample(ML_SMALL, r.randint(1, 3))
+        nb = r.randint(2, min(4, n))
+        cuts = sorted(r.sample(range(1, n), nb - 1))
+        bounds = list(zip([0] + cuts, cuts + [n]))
+        dts = [r.choice(ML_DTYPES) for _ in bounds]
+        if r.random() < 0.8:
+            # the sources that matter: one wide integer batch and one batch that makes numpy promote to float64
+            a, b = r.sample(range(nb), 2)
+            dts[a] = "int64"
+            dts[b] = r.choice(["float64", "float64", "uint64", "float32"])
+        batches, trained = [], set()
+        for (lo, hi), dt in zip(bounds, dts):
+            allowed = [c for c in classes if _ml_fits(c, dt)]
+            if not allowed:
+                allowed = [r.choice([0, 1, 2])]
+            wide = [c for c in allowed if abs(c) > 2 ** 53]
+            ys = [r.choice(wide) if wide and r.random() < 0.6 else r.choice(allowed) for _ in range(lo, hi)]
+            trained.update(ys)
+            batches.append({"rows": [lo, hi], "dtype": dt, "y": ys})
+        first_by_fit = r.random() < 0.4
+        rep = {"family": host, "spec": spec, "mode": fam.mode, "eps": fam.eps, "Xs": [t.tolist() for t in Xs],
+               "label_batches": batches, "first_batch_by": "fit" if first_by_fit else "partial_fit"}
+        try:
+            est = make(spec)
+            with quiet():
+                for bno, bt in enumerate(batches):
+                    lo, hi = bt["rows"]
+                    yb = np.array(bt["y"], dtype=bt["dtype"])
+                    assert [int(v) for v in yb] == bt["y"]            # the batch holds its labels exactly
+                    Xb = [t[lo:hi] for t in Xs] if deep else Xs[0][lo:hi]
+                    if bno == 0 and first_by_fit:
+                        est.fit(Xb, yb, **kw)
+                    else:
+                        est.partial_fit(Xb, yb, **kw)
+        except Exception as e:
+            # contradictory labels on identical rows etc.: training is other properties' business
+            cov.hit(f"mixed-label-dtypes:train-raised:{host}:{exc_enum(e)}")
+            continue
+        layers = list(est.layers) if deep else [est]
+        mod = layers[-1].module_a
+        stored = str(np.asarray(layers[0].labels_).dtype)
+        exact = sorted(int(v) for v in np.asarray(layers[0].labels_)) == sorted(y for bt in batches for y in bt["y"])
+        cov.hit(f"mixed-label-dtypes:{host}:stored-labels-{stored}")
+        cov.hit("mixed-label-dtypes:batch-dtypes:" + "+".join(sorted(set(dts))))
+        cov.hit("mixed-label-dtypes:stored-label-vector-" + ("holds-every-label" if exact else "cannot-hold-the-labels"))
+        if len(layers) > 1:
+            cov.hit("mixed-label-dtypes:labelled-layer-below-the-predicting-layer")
+        # --- query: training rows of every batch, duplicates, fresh rows
+        idx = [r.randrange(lo, hi) for lo, hi in bounds] + [r.randrange(n) for _ in range(r.randint(1, 6))]
+        Q = [t[idx] for t in Xs]
+        if fresh is not None and r.random() < 0.6:
+            Q = [np.concatenate([a, np.asarray(b, dtype=a.dtype)]) for a, b in zip(Q, fresh)]
+        nq = len(Q[0])
+        Xq = np.asarray(Q[-1], dtype=float)
+        rep = dict(rep, query=[t.tolist() for t in Q], stored_labels_dtype=stored, trained_labels=sorted(trained),
+                   maps=[{int(a): int(b) for a, b in L.map.items()} for L in layers])
+        with quiet():
+            Ts = [_nb_acts(mod, x) for x in Xq]
+        before = _ml_label_state(layers)
+        W0 = [np.array(w, dtype=float).copy() for w in mod.W]
+
+        def ask(lo, hi):
+            """columns of Python ints: [class label, ... , A-side category of the last module]"""
+            with quiet():
+                if deep:
+                    out = est.predict([t[lo:hi] for t in Q])
+                    return [[int(v) for v in np.asarray(c)] for c in out], [str(np.asarray(c).dtype) for c in out]
+                yb = est.predict(Q[0][lo:hi])
+                ya, yb2 = est.predict_ab(Q[0][lo:hi])
+                return [[int(v) for v in yb], [int(v) for v in yb2], [int(v) for v in ya]], [str(np.asarray(yb).dtype)]
+        try:
+            cols, out_dt = ask(0, nq)
+            singles = [ask(k, k + 1)[0] for k in range(nq)]
+        except Exception as e:
+            cov.hit(f"mixed-label-dtypes:predict-raised:{host}:{exc_enum(e)}")
+            ctx.issue("violation", f"{host}.predict:{exc_enum(e)}:mixed-label-dtypes",
+                      f"predict raised {e!r} on a model trained from label batches of dtypes {dts}", rep)
+            continue
+        cov.hit(f"mixed-label-dtypes:predict-returns-{out_dt[0]}")
+        if _ml_label_state(layers) != before or len(W0) != len(mod.W) or \
+                not all(np.array_equal(u, np.asarray(v, dtype=float), equal_nan=True) for u, v in zip(W0, mod.W)):
+            ctx.issue("violation", f"{host}.predict:mutates-model:mixed-label-dtypes",
+                      "label maps / stored labels / module weights changed during predict", rep)
+        rowwise = [[s[c][0] for s in singles] for c in range(len(cols))]
+        if rowwise != cols:
+            ctx.issue("violation", f"{host}.predict:batch-dependent:mixed-label-dtypes", f"batch {cols} vs row by row {rowwise}", rep)
+        big_won = False
+        for k in range(nq):
+            best = _nb_first_argmax(Ts[k])
+            if best is None:
+                cov.hit("mixed-label-dtypes:nan-activation")
+                continue
+            # the chain category -> ... -> class label through every layer's own map
+            chain = [best]
+            for L in layers[::-1]:
+                chain.append(int(L.map[chain[-1]]))
+            want = chain[::-1]                       # [class label, ..., A-side category]
+            if deep:
+                got, names = [c[k] for c in cols], ["predict"]
+            else:
+                got, names = None, ["predict", "predict_ab"]
+            if abs(want[0]) > 2 ** 53:
+                big_won = True
+                cov.hit("mixed-label-dtypes:row-won-by-a-class-above-2^53" + ("" if exact else ":stored-labels-cannot-hold-it"))
+            what = None
+            if deep:
+                if got[-1] != best:
+                    what = ("predict:not-first-argmax", f"A-side category {got[-1]}, the oldest category of maximal activation is {best}")
+                elif got != want:
+                    what = ("predict:not-map-of-argmax", f"predicted {got} (class label first), the layers' maps carry the winning category {best} to {want}")
+                elif got[0] not in trained:
+                    what = ("predict:class-never-trained", f"predicted class {got[0]}")
+            else:
+                p1, p2, pa = cols[0][k], cols[1][k], cols[2][k]
+                if pa != best:
+                    what = ("predict_ab:not-first-argmax", f"A-side category {pa}, the oldest category of maximal activation is {best}")
+                elif p2 != want[0]:
+                    what = ("predict_ab:not-map-of-argmax", f"predict_ab gives class {p2}, the map carries the winning category {best} to {want[0]}")
+                elif p1 != want[0]:
+                    what = ("predict:not-map-of-argmax", f"predicted class {p1}, the map carries the winning category {best} to {want[0]}")
+                elif p1 not in trained:
+                    what = ("predict:class-never-trained", f"predicted class {p1}")
+            if what is not None:
+                ctx.issue("violation", f"{host}.{what[0]}:mixed-label-dtypes",
+                          f"label batches of dtypes {dts} (stored label vector: {stored}, returned: {out_dt[0]}): row {k}: {what[1]}; "
+                          f"labels the host was trained with: {sorted(trained)}", dict(rep, row=k))
+                break
+        cov.case(("mixed-labels", host, spec, rep["Xs"], [(bt["dtype"], bt["y"]) for bt in batches], idx), big_won and not exact)
